@@ -37,9 +37,10 @@ def main():
                 m = re.search(r"cp\s+\S*%s\s+(\S+)" % re.escape(f), demo)
                 sub = ""
                 if m:
-                    sub = re.sub(r"^/tmp/seedwt-[a-z0-9]+/?", "", m.group(1)).strip("/")
+                    sub = re.sub(r"^/tmp/seedwt2?-[a-z0-9]+/?", "", m.group(1)).strip("/")
                     if sub.startswith("."):
                         sub = sub.lstrip("./")
+                os.makedirs(os.path.join(wt, sub), exist_ok=True)
                 shutil.copy(os.path.join(src, f), os.path.join(wt, sub))
                 gotests.append((sub or ".", f))
             elif os.path.isdir(os.path.join(src, f)):
@@ -49,7 +50,11 @@ def main():
         def run_demo():
             outs = []
             d = next((f for f in demos if f.endswith(".pangaea")), None)
-            if d:
+            mt = re.search(r"go run \. test (\S+)", demo)
+            if mt and os.path.isdir(os.path.join(wt, os.path.basename(mt.group(1).rstrip("/")))):
+                # a directory of scripts run with `pangaea test`
+                outs.append(sh("go run . test %s 2>&1 | head -80" % os.path.basename(mt.group(1).rstrip("/")), cwd=wt, timeout=600)[1][-2000:])
+            elif d:
                 # stdin: `printf '...' | go run ...`  or  `go run ... < file` in the demo command, else empty
                 pre, red = "", "< /dev/null"
                 m = re.search(r"(printf\s+'[^']*'\s*\|)", demo)
@@ -63,11 +68,11 @@ def main():
                 m = re.search(r"-run\s+(\S+)", demo)
                 race = "-race" if "-race" in demo else ""
                 env2 = dict(ENV, CGO_ENABLED="1") if race else ENV
-                o = sh("go test %s -vet=off -count=1 -run '%s' ./%s/ 2>&1 | grep -v '^\s*/\|^goroutine\|^$' | head -30" % (
-                    race, m.group(1) if m else ".", sub), cwd=wt, env=env2, timeout=900)[1]
+                o = sh("go test %s -vet=off -count=1 -v -run '%s' ./%s/ 2>&1 | grep -v '^\s*/\|^goroutine\|^$' | head -120" % (
+                    race, m.group(1).strip("'\"") if m else ".", sub), cwd=wt, env=env2, timeout=900)[1]
                 o = re.sub(r"\d+\.\d+s", "Xs", o)
                 o = re.sub(r"0x[0-9a-f]+", "0x..", o)
-                outs.append(o[-1200:])
+                outs.append(o[-6000:])
             return "\n".join(outs) if outs else "(no runnable demo found)"
         base = run_demo()
         rc, out = sh("git apply %s" % os.path.join(src, "patch.diff"), cwd=wt)
